@@ -118,9 +118,18 @@ def run_cases(hbin, runner, flags, cmds, timeout=3000):
     return mism, stats, lines
 
 
-def classify(msg):
+def classify(msg, text=""):
+    """the class of a panic message, confirmed on the text (a panic with the same message from another site is NOT in the class)"""
     for cls, d in CLASSES.items():
         if any(x in msg for x in d["match"]):
+            if cls == "C09-peek-index" and "PEEK" not in text:
+                return None
+            if cls == "C09-unroller-overflow" and not re.search(r"429496729[45]", text):
+                return None
+            if cls == "C09-invalid-escape" and "\\u{" not in text and "\\" not in text:
+                return None
+            if cls == "C09-nested-leading-choice" and "|" not in text:
+                return None
             return cls
     return None
 
@@ -228,7 +237,7 @@ def run(tier, seed, replay=None):
         if m["kind"] != "spec":
             continue
         kind = m["case"].split("|", 1)[0].replace("[grammar-extras] ", "")
-        cls = classify(m["impl"])
+        cls = classify(m["impl"], case_text(m["case"]))
         if kind.startswith("expo-") and ("took " in m["impl"] or "no answer" in m["impl"]):
             expo_spec.append(m)
         elif cls:
@@ -275,6 +284,8 @@ def run(tier, seed, replay=None):
     # ---- correspondence
     model_m = [m for m in mism if m["kind"] == "model"]
     other_m = [m for m in mism if m["kind"] not in ("spec", "model")]
+    spec_cases = set(m["case"] for m in mism if m["kind"] == "spec")
+    model_m = [m for m in model_m if m["case"] not in spec_cases]     # already reported as violations of the property
     if model_m:
         shape = [m for m in model_m if m["impl"].startswith("shape|")]
         worst = min(shape or model_m, key=lambda m: len(m["case"]))
